@@ -204,6 +204,26 @@ def selectors():
         [Name('a'), Word('nth-child', prefix=':', simple=False), '(', O(), '2n+1', O(), ')'],
         ((_t('a'), ('pseudo-class', ':nth-child('), ('DIMENSION', '2n'), ('NUMBER', '+1'), ('function-end', ')')), (0, 0, 0, 1)),
     )
+    # one construct inside another: a functional pseudo-class inside the negation, a namespaced type selector inside the negation,
+    # a namespaced attribute, a pseudo-element with an argument
+    S['a:not(:nth-child(2n+1))'] = Node(
+        [Name('a'), Word('not', prefix=':', simple=False), '(', O(), Word('nth-child', prefix=':', simple=False), '(', O(), '2n+1', O(), ')', O(), ')'],
+        ((_t('a'), ('negation-start', ':not('), ('pseudo-class', ':nth-child('), ('DIMENSION', '2n'), ('NUMBER', '+1'), ('function-end', ')'),
+          ('negation-end', ')')), (0, 0, 0, 1)),
+    )
+    S['a:not(p|b)'] = Node(
+        [Name('a'), Word('not', prefix=':', simple=False), '(', O(), 'p|', Name('b'), O(), ')'],
+        ((_t('a'), ('negation-start', ':not('), ('negation-type-selector', (NS_P, 'b')), ('negation-end', ')')), (0, 0, 0, 2)), needs_ns=True,
+    )
+    S['a[p|b=c]'] = Node(
+        [Name('a'), '[', O(), 'p|b', O(), '=', O(), 'c', O(), ']'],
+        ((_t('a'), ('attribute-start', '['), ('attribute-selector', (NS_P, 'b')), ('equals', '='), ('attribute-value', 'c'), ('attribute-end', ']')), (0, 0, 1, 1)),
+        needs_ns=True,
+    )
+    S['a::slotted(b)'] = Node(
+        [Name('a'), Word('slotted', prefix='::', simple=False), '(', O(), 'b', O(), ')'],
+        ((_t('a'), ('pseudo-element', '::slotted('), ('IDENT', 'b'), ('function-end', ')')), (0, 0, 0, 2)),
+    )
     S['*'] = Node(['*'], ((('universal', (None, '*')),), (0, 0, 0, 0)))
     S['p|a'] = Node(['p|', Name('a')], ((_t('a', NS_P),), (0, 0, 0, 1)), needs_ns=True)
     # unprefixed type selector in a sheet whose default namespace is NS_P
@@ -325,17 +345,22 @@ def _clone(site):
     return copy.copy(site)
 
 
+_NESTED_IDS = __import__('itertools').count()
+
+
 def media_rule(names, rules):
     mp, me = media_list(names)
     pieces = [at('media'), R()] + mp + [O(), '{', O()]
-    exp = []
+    exp, ends = [], []
     for i, r in enumerate(rules):
         if i:
             pieces += [O()]
         pieces += r.pieces
+        ends.append(next(_NESTED_IDS))
+        pieces.append(Mark(('nested-end', ends[-1])))  # where the contained rule ends (C04: truncation inside the block)
         exp.append(r.expected)
     pieces += [O(), '}']
-    return Node(pieces, ('media', me, tuple(exp)), needs_ns=any(getattr(r, 'needs_ns', False) for r in rules), kind='media')
+    return Node(pieces, ('media', me, tuple(exp)), needs_ns=any(getattr(r, 'needs_ns', False) for r in rules), kind='media', rules=list(rules), ends=ends)
 
 
 def import_rule(href, form='string', media=(), name=None):
